@@ -696,7 +696,8 @@ Definition line_step (rec : string -> option (string * N) -> bool -> list string
             else POk p
           else err ESyntax fname line inc "Unrecognised preprocessor directive"
         else if cstate_eqb st Active then
-          let text := if negb (ends_with nl new_line) && has_lf then new_line ++ nl else new_line in
+          let included := match inc with Some _ => true | None => false end in
+          let text := if negb (ends_with nl new_line) && (has_lf || included) then new_line ++ nl else new_line in
           POk (emit p here text)
         else POk p
   end.
